@@ -6,13 +6,52 @@ RULE = ('seeded random histories; each successful bundle is undone and its store
         'the snapshot must equal the post-bundle snapshot. A case = one bundle; non-trivial = emitted >=1 stored action and '
         'changed >=1 cell; distinct by (user-action kinds, stored-action kinds/tables/column sets).')
 ASSUMPTIONS = ['volatile formulas are never generated', 'encoded values compared under Node number semantics']
-REQUIRED = {'redos': {'quick': 300, 'thorough': 5000}}
+REQUIRED = {'redos': {'quick': 300, 'thorough': 1200}}
 
 def plan(tier, seed):
-  n, steps = (16, 40) if tier == 'quick' else (192, 70)
-  return [{'hseed': seed * 100003 + 7000 + i, 'steps': steps} for i in range(n)]
+  # thorough = the quick workload of the seed families seed .. seed+3 (see props/C01.py for why).
+  fams = [seed] if tier == 'quick' else [seed, seed + 1, seed + 2, seed + 3]
+  return [{'witness': 'trigger_on_error_cells'}, {'witness': 'self_lookup_cycle'}] + \
+         [{'hseed': f * 100003 + 7000 + i, 'steps': 40} for f in fams for i in range(16)]
+
+
+def witness_trigger_on_error_cells(acc):
+  """Open finding shared with C01 (see props/C01.py): the undo runs trigger formula G, and
+  re-applying the stored actions does not bring back the values G had after the bundle."""
+  from vlib.client import EngineProc
+  from vlib import snapshot
+  from props import C01
+  with EngineProc() as p:
+    S0, S1, S0u, S1r = C01.trigger_on_error_cells_history(p)
+    acc.count('witness_runs')
+    d = snapshot.diff(S1, S1r)
+    if C01.only_cells_of(d, 'T', 'G'):
+      acc.violation('trigger_on_error_cells', 'witness: undo + redo of [ModifyColumn G {type}, RemoveRecord] left values '
+                    'calculated by trigger formula G during the undo: %s' % d[:2], {'diff': d})
+    elif d:
+      acc.violation('redo_diff', 'witness history: state after undo+redo differs: %s' % d[:3], {'diff': d})
+
+
+def witness_self_lookup_cycle(acc):
+  """Open finding shared with C01 (see props/C01.py)."""
+  from vlib.client import EngineProc
+  from vlib import snapshot
+  from props import C01
+  with EngineProc() as p:
+    S0, S1, S0u, S1r = C01.self_lookup_cycle_history(p)
+    acc.count('witness_runs')
+    d = snapshot.diff(S1, S1r)
+    if C01.only_cells_of(d, 'T', 'B'):
+      acc.violation('cycle_detection_incremental_vs_scratch', 'witness: undo + redo of ModifyColumn B {isFormula: false} '
+                    'left B recalculated from scratch: %s' % d[:2], {'diff': d})
+    elif d:
+      acc.violation('redo_diff', 'witness history: state after undo+redo differs: %s' % d[:3], {'diff': d})
+
 
 def run_shard(spec, acc):
-  mon = histories.UndoRedoMonitor(check_undo=False, check_redo=True, final_unwind=False)
+  if spec.get('witness'):
+    return globals()['witness_' + spec['witness']](acc)
+  from props import C01
+  mon = histories.UndoRedoMonitor(check_undo=False, check_redo=True, final_unwind=False, classify=C01.classify)
   h = histories.History(acc, spec['hseed'], [mon], spec['steps'])
   h.run()
